@@ -235,6 +235,23 @@ def run(model: RepoModel, rep, tier: str):
     check_summary_accumulates(model, rep, "C07.R6", declare=True)
     _r7_inherited_methods(model, rep)
     _r8_call_site_budget(model, rep, "C07.R8")
+    # `import helper; helper.f(x)`: the receiver of the call is a MODULE.  The handler of field reads looks the field up among the module's
+    # symbols (branch `is_state_a_unit(receiver)`); the handler of method-call statements resolves `<receiver>.<field>` too and must do the same,
+    # otherwise a function called through its module is no callee at all
+    rep.rule("C07.R10", "a call through a module (`import m; m.f()`) is resolved like a read of `m.f`: every handler that resolves `<receiver>.<field>` "
+                        "looks the field up among a module receiver's symbols", 2)
+    resolvers = [h for h in (st.methods.get("field_read_stmt_state"), st.methods.get("object_call_state")) if h is not None]
+    if len(resolvers) < 2:
+        raise AnalysisError("StmtStates.field_read_stmt_state / object_call_state vanished")
+    for h in resolvers:
+        key = f"{SS}::StmtStates.{h.name}::a module receiver's field is looked up among the module's symbols"
+        if any(isinstance(c, ast.Call) and is_self_attr(c.func, "is_state_a_unit") for c in walk_no_nested(h.node)):
+            rep.holds("C07.R10", key, SS, h.node.lineno, "branch `self.is_state_a_unit(<receiver state>)` present")
+        else:
+            rep.violation("C07.R10", key, SS, h.node.lineno,
+                          f"{h.name} resolves `<receiver>.<field>` through the receiver state's field map only; for a receiver that is an imported module "
+                          f"(no field map) nothing is found, while field_read_stmt_state looks the name up among the module's symbols: `import helper; "
+                          f"helper.f(1)` has no call edge to helper.f")
     # calls through imports from other analysed files: the import resolution rules of C05.R7 are necessary conditions here too
     from .c05 import _r7 as _imports
     _imports(model, rep, "C07.R9")
